@@ -58,6 +58,7 @@ def verify(wt, pid):
 def detect(src, pids, tier="quick"):
     """run the checks against a scratch worktree of /repo HEAD with the patch applied (MIROS_REPO), so that
     /repo itself and /verif/evidence are left alone and several detections can run side by side"""
+    src = os.path.abspath(src)
     patch = find(src, None)[0] if glob.glob(os.path.join(src, "demo*.py")) else os.path.join(src, "patch.diff")
     v = "/tmp/dwt_%s_%d" % (os.path.basename(src.rstrip("/")), os.getpid())
     rc, out = sh("git -C /repo worktree add -q %s HEAD" % v)
